@@ -317,11 +317,14 @@ class VectorSpline2D(BaseGridder):
         check_is_fitted(self, ["force_"])
         force_east, force_north = n_1d_arrays(self.force_coords, n=2)
         east, north = n_1d_arrays(coordinates, n=2)
+        # Calculate in floating point even if the coordinates are integers
+        # (narrow integer types would overflow or lose precision)
+        east, north = (
+            i if i.dtype.kind == "f" else i.astype("float64") for i in (east, north)
+        )
         cast = np.broadcast(*coordinates[:2])
         npoints = cast.size
-        # Use a floating point type for the predictions even if the
-        # coordinates are integers
-        dtype = np.result_type(east.dtype, "float32")
+        dtype = east.dtype
         components = (
             np.empty(npoints, dtype=dtype),
             np.empty(npoints, dtype=dtype),
@@ -386,6 +389,11 @@ class VectorSpline2D(BaseGridder):
         """
         force_east, force_north = n_1d_arrays(force_coords, n=2)
         east, north = n_1d_arrays(coordinates, n=2)
+        # Calculate in floating point even if the coordinates are integers
+        # (narrow integer types would overflow or lose precision)
+        east, north = (
+            i if i.dtype.kind == "f" else i.astype("float64") for i in (east, north)
+        )
         jac = np.empty((east.size * 2, force_east.size * 2), dtype=dtype)
         if parse_engine(self.engine) == "numba":
             jac = jacobian_2d_numba(
